@@ -434,6 +434,14 @@ def enc9(o):
     return [enc9(x) for x in o]
 
 
+def py_equal_wire(a, b):
+    """the two wire values are equal as Python values (True == 1 == 1.0; sets as sets)"""
+    try:
+        return common.dec(a) == common.dec(b)
+    except TypeError:
+        return False
+
+
 def canon_wire(w):
     """Wire value with every set sorted canonically (the model's set order is arbitrary)."""
     if isinstance(w, list):
@@ -1632,3 +1640,349 @@ def run_py_case(case):
     value = dec_py(case['v'])
     obs, fails = run_impl(value, ctxdict, {})
     return obs, fails
+
+
+# ---------------------------------------------------------------------------------------------
+# LAZILY MATERIALISING containers: iteration creates the members
+# ---------------------------------------------------------------------------------------------
+#
+# `_get_formatted_iterable` memoises by id(obj). A container that CREATES its members while it is iterated (a
+# Sequence whose __iter__ builds each str, a Mapping whose items() builds keys and values, a Set of temporaries)
+# hands the formatter objects that nobody else refers to: a member may die right after it was formatted, and the
+# next member may get its address. The property's "members formatted element-wise" then reads: EACH MEMBER IS
+# FORMATTED AS ITSELF — whatever the allocator does with addresses (FmtFree.lean: the counter-model in which
+# an address is re-used while the memo survives; Props/C09.lean `memo_keeps_alive_sound`).
+#
+# case = {"stream": "lazy", "shape": "seq"|"seqgen"|"map"|"set", "place": "top"|"member"|"ctx"|"ctx-rf",
+#         "ctx": [[key, wire]...], "items": [wire...]  (map: [[wire key, wire value]...])}
+
+def refresh(x):
+    """An equal-content object that nobody else refers to: a new str (len >= 2) / bytes-free container, members
+    refreshed recursively; non-string leaves and special tags are handed out as the identical objects."""
+    if type(x) is str:
+        return ''.join(list(x)) if len(x) >= 2 else x
+    if type(x) is tuple:
+        return tuple(refresh(e) for e in x) if x else x
+    if type(x) is list:
+        return [refresh(e) for e in x]
+    if type(x) is dict:
+        return {refresh(k): refresh(v) for k, v in x.items()}
+    return x
+
+
+class LazySeq(Sequence):
+    """A Sequence that builds every member anew when it is iterated or indexed."""
+
+    def __init__(self, items=()):
+        self._items = list(items)
+
+    def __len__(self):
+        return len(self._items)
+
+    def __getitem__(self, i):
+        if isinstance(i, slice):
+            return type(self)(self._items[i])
+        return refresh(self._items[i])
+
+    def __iter__(self):
+        return _LazyIter(self._items)
+
+    def __eq__(self, other):
+        return type(other) is type(self) and self._items == other._items
+
+    def __repr__(self):
+        return f'{type(self).__name__}({self._items!r})'
+
+
+class _LazyIter:
+    """iterator protocol by hand: the member exists only between two __next__ calls"""
+
+    def __init__(self, items):
+        self._items, self._i = items, 0
+
+    def __iter__(self):
+        return self
+
+    def __next__(self):
+        if self._i >= len(self._items):
+            raise StopIteration
+        self._i += 1
+        return refresh(self._items[self._i - 1])
+
+
+class LazyGenSeq(LazySeq):
+    """the same with a generator function as __iter__ (a generator of temporaries)"""
+
+    def __iter__(self):
+        for x in self._items:
+            yield refresh(x)
+
+
+class LazyMap(Mapping):
+    """A Mapping whose keys() / items() build key and value objects anew."""
+
+    def __init__(self, pairs=()):
+        self._d = dict(pairs)
+
+    def __len__(self):
+        return len(self._d)
+
+    def __iter__(self):
+        for k in self._d:
+            yield refresh(k)
+
+    def __getitem__(self, k):
+        return refresh(self._d[k])
+
+    def __eq__(self, other):
+        return type(other) is type(self) and self._d == other._d
+
+    def __repr__(self):
+        return f'LazyMap({self._d!r})'
+
+
+class LazySet(Set):
+    """A Set of temporaries."""
+
+    def __init__(self, members=()):
+        self._s = list(dict.fromkeys(members))          # insertion-ordered, duplicates dropped
+
+    @classmethod
+    def _from_iterable(cls, it):
+        return cls(it)
+
+    def __len__(self):
+        return len(self._s)
+
+    def __contains__(self, x):
+        return x in self._s
+
+    def __iter__(self):
+        for x in self._s:
+            yield refresh(x)
+
+    def __repr__(self):
+        return f'LazySet({self._s!r})'
+
+
+LAZY_CLASSES = {'seq': LazySeq, 'seqgen': LazyGenSeq, 'map': LazyMap, 'set': LazySet}
+
+
+def lazy_members(o):
+    """the members a lazily materialising container HOLDS (not what iterating it creates), in order"""
+    if isinstance(o, LazySeq):
+        return list(o._items)
+    if isinstance(o, LazyMap):
+        return list(o._d.items())
+    return list(o._s)
+
+
+def run_lazy(case, decode=None, entry='context', encode=None):
+    """Format a lazily materialising container. Returns (obs, monitor failures).
+    obs = {"ok": wire of the result's members as a plain list / dict / set} | {"err": name, "msg": text}.
+    Monitor, from the property text alone: the result is a container of the same class whose members are, one by
+    one, what formatting THAT member on its own gives (a str / container member: deep-equal to the separate
+    formatting of the held member, which stays referenced, so no address can be confused; a non-string leaf
+    member: the identical object); the held members and the context are unchanged."""
+    try:
+        with time_limit(CASE_SECONDS):
+            return _run_lazy(case, decode or common.dec, entry, encode or enc9)
+    except CaseTimeout:
+        return ({'err': 'Timeout', 'msg': f'no result within {CASE_SECONDS}s'},
+                [('hang', f'formatting did not return within {CASE_SECONDS}s')])
+
+
+def _run_lazy(case, decode, entry, encode):
+    from pypyr.context import Context
+    shape, place = case['shape'], case.get('place', 'top')
+    ctxdict = {k: decode(w) for k, w in case['ctx']}
+    if shape == 'map':
+        lazy = LazyMap([(decode(k), decode(v)) for k, v in case['items']])
+    else:
+        lazy = LAZY_CLASSES[shape]([decode(w) for w in case['items']])
+    held = lazy_members(lazy)
+    if place in ('ctx', 'ctx-rf'):
+        ctxdict['lz'] = lazy
+    ctx = Context(ctxdict)
+    fmtcall = formatter_of(ctx, entry)
+    value = {'top': lazy, 'member': [lazy, 'tail'], 'ctx': '{lz}', 'ctx-rf': '{lz:rf}'}[place]
+    def held_flat():
+        m = lazy_members(lazy)
+        return [x for kv in m for x in kv] if shape == 'map' else m
+    snap_held, snap_c = Snapshot(held_flat()), Snapshot({k: v for k, v in ctx.items() if k != 'lz'})
+
+    # the oracle: every held member formatted on its own, by a top-level call of its own
+    def alone(x):
+        try:
+            if place == 'ctx-rf':
+                # '{lz:rf}' formats the container with the recursive flag on: so is the member on its own
+                c1 = Context(dict(ctx, one=x))
+                return ('ok', formatter_of(c1, entry)('{one:rf}'))
+            return ('ok', fmtcall(x))
+        except RecursionError:
+            return ('rec', None)
+        except Exception as e:  # noqa
+            return ('err', e)
+
+    def hashable(y):
+        try:
+            hash(y)
+            return True
+        except TypeError:
+            return False
+    flat = [x for kv in held for x in kv] if shape == 'map' else held
+    want = [alone(x) for x in flat]
+    fails = []
+    try:
+        res = fmtcall(value)
+        err = None
+    except Exception as e:  # noqa  (RecursionError included)
+        res, err = None, e
+    f = snap_held.same(held_flat(), ids=True)
+    if f:
+        fails.append(('input-mutated', f'the members the container holds changed: {f}'))
+    f = snap_c.same({k: v for k, v in ctx.items() if k != 'lz'}, ids=True)
+    if f:
+        fails.append(('context-mutated', f'the context changed: {f}'))
+    if err is not None:
+        keyed = want[0::2] if shape == 'map' else want if shape == 'set' else []
+        if isinstance(err, TypeError) and any(w[0] == 'ok' and not hashable(w[1]) for w in keyed):
+            pass                                        # a formatted key / set member is unhashable: TypeError is right
+        elif all(w[0] == 'ok' for w in want):
+            fails.append(('lazy-member', f'every member formats on its own, but formatting the {type(lazy).__name__} '
+                          f'raised {type(err).__name__}: {err}'))
+        return {'err': exc_name(err), 'msg': str(err)[:200]}, fails
+    if place == 'member':
+        res = res[0] if type(res) is list and len(res) == 2 else res
+    if type(res) is not type(lazy):
+        fails.append(('shape', f'{type(lazy).__name__} came back as {type(res).__name__}'))
+        return {'ok': {'unencodable': repr(res)[:200]}}, fails
+    got = lazy_members(res)
+    first_bad = next((w for w in want if w[0] != 'ok'), None)
+    if first_bad is not None:
+        fails.append(('lazy-member', f'a member does not format on its own ({first_bad!r}) but the container came back: {got!r}'[:400]))
+    elif shape in ('seq', 'seqgen'):
+        if len(got) != len(held):
+            fails.append(('shape', f'sequence length {len(held)} became {len(got)}'))
+        for i, (x, w, y) in enumerate(zip(held, want, got)):
+            if is_leaf(x) and not isinstance(x, (bytes, bytearray)) or isinstance(x, (bytes, bytearray)):
+                ok = y is x
+            else:
+                ok = deep_equal(w[1], y)
+            if not ok:
+                fails.append(('lazy-member', f'member {i} {x!r} formats to {w[1]!r} on its own, but the result holds '
+                              f'{y!r} at its position (each member must be formatted as itself)'))
+                break
+    elif shape == 'map':
+        exp = {}
+        try:
+            for j in range(0, len(want), 2):
+                exp[want[j][1]] = want[j + 1][1]
+        except TypeError:
+            exp = None                                  # an unhashable formatted key: the call should have raised
+        if exp is None:
+            fails.append(('lazy-member', f'a formatted key is unhashable but the mapping came back: {got!r}'[:300]))
+        elif not deep_equal(dict(got), exp):
+            fails.append(('lazy-member', f'pairs format to {exp!r} on their own, but the result holds {dict(got)!r} '
+                          '(each key and value must be formatted as itself)'))
+    else:
+        exp = sorted(stable_repr(w[1]) for w in want)
+        try:
+            distinct = len({w[1] for w in want}) == len(want)       # Python equality: True == 1 == 1.0 collide
+        except TypeError:
+            distinct = False
+        if distinct and sorted(stable_repr(y) for y in got) != exp:
+            fails.append(('lazy-member', f'members format to {exp!r} on their own, but the result holds '
+                          f'{sorted(stable_repr(y) for y in got)!r} (each member must be formatted as itself)'))
+    try:
+        if shape == 'map':
+            val = canon_wire(encode(dict(got)))
+        elif shape == 'set':
+            val = canon_wire({'set': [encode(y) for y in got]})
+        else:
+            val = canon_wire(encode(list(got)))
+    except Exception:
+        val = {'unencodable': repr(got)[:200]}
+    return {'ok': val}, fails
+
+
+def lazy_model_value(case):
+    """the plain container (wire form) with the same members: what the tree-level models format"""
+    if case['shape'] == 'map':
+        return {'d': [[k, v] for k, v in case['items']]}
+    if case['shape'] == 'set':
+        return {'set': list(case['items'])}
+    return list(case['items'])
+
+
+LAZY_CTX = [['k0', 'v0'], ['k1', 'value one'], ['k2', 2], ['k3', 'v3'], ['k4', [4, 'x{k0}']], ['k5', 'v5'],
+            ['k6', None], ['k7', 'seven'], ['k8', 'v{k0}'], ['k9', {'t': [9, '{k1}']}]]
+
+
+def lazy_directed_cases():
+    out = []
+    exprs = [f'x{{k{i}}}' for i in (0, 1, 2, 3, 5, 6, 7, 0, 3, 5, 1, 7)]
+    singles = [f'{{k{i}}}' for i in (0, 1, 2, 3, 4, 5, 6, 7, 8, 9)]
+    for shape in ('seq', 'seqgen', 'set'):
+        for place in ('top', 'member', 'ctx', 'ctx-rf'):
+            for name, items in (('mixed', exprs), ('single', singles), ('two', exprs[:2]), ('empty', []),
+                                ('tuples', [{'t': [e, i]} for i, e in enumerate(exprs[:8])]),
+                                ('plain+expr', ['plain', 'x{k0}', 'other', 'x{k1}', 'third', 'x{k3}', 'xx', 'x{k5}'])):
+                if shape == 'set' and name == 'single':
+                    items = [s for s in items if s not in ('{k4}',)]          # a list is not hashable
+                out.append({'stream': f'lazy:directed:{name}', 'shape': shape, 'place': place, 'ctx': LAZY_CTX,
+                            'items': items})
+    for place in ('top', 'member', 'ctx', 'ctx-rf'):
+        out.append({'stream': 'lazy:directed:map', 'shape': 'map', 'place': place, 'ctx': LAZY_CTX,
+                    'items': [[f'key{i}-{{k{j}}}', f'val {{k{(j + 1) % 8}}}'] for i, j in enumerate((0, 1, 2, 3, 5, 7, 0, 3))]})
+        out.append({'stream': 'lazy:directed:map-lists', 'shape': 'map', 'place': place, 'ctx': LAZY_CTX,
+                    'items': [[f'k{i}{i}', [f'x{{k{i}}}', i]] for i in (0, 1, 2, 3, 5, 7)]})
+    return out
+
+
+def random_lazy_case(rng):
+    nk = rng.randint(3, 8)
+    ctx = []
+    for i in range(nk):
+        q = rng.random()
+        if q < 0.55:
+            v = rng.choice(['v', 'val', 'value ']) + str(i)
+        elif q < 0.7:
+            v = rng.choice([i, -i, None, True, 10 ** 12 + i])
+        elif q < 0.85 and i:
+            v = rng.choice(['{k%d}', 'r{k%d}', '{k%d:ff}']) % rng.randrange(i)
+        else:
+            v = rng.choice([[i, 'm'], {'t': [i]}, [f'x{i}', 'y']])
+        ctx.append([f'k{i}', v])
+
+    def expr():
+        i = rng.randrange(nk)
+        return rng.choice(['x{k%d}', '{k%d}', 'a {k%d} b', '{k%d}{k%d}', 'lit%d', '{k%d:rf}', 'z{k%d:ff}', '{{%d']) \
+            .replace('%d', str(i))
+    shape = rng.choice(['seq', 'seq', 'seqgen', 'map', 'set'])
+    n = rng.choice([0, 1, 2, 4, 5, 6, 8, 9, 12, 16])
+    if shape == 'map':
+        items, seen = [], set()
+        for j in range(n):
+            k = rng.choice(['p%d', 'key %d', 'q{k0}%d']).replace('%d', str(j))
+            v = expr() if rng.random() < 0.8 else [expr(), j]
+            items.append([k, v])
+    elif shape == 'set':
+        items = list(dict.fromkeys(expr() for _ in range(n)))
+        # a member that formats to a list is unhashable: keep the set stream to members whose value is hashable
+        hashable = {k for k, v in ctx if not isinstance(v, list)}
+        items = [s for s in items if all(('k' + d) in hashable for d in _digits_after_k(s))]
+    else:
+        q = rng.random()
+        if q < 0.6:
+            items = [expr() for _ in range(n)]
+        elif q < 0.8:
+            items = [{'t': [expr(), j]} for j in range(n)]
+        else:
+            items = [rng.choice([expr(), [expr()], {'t': [expr()]}, j, None, {'d': [[f'k{j}', expr()]]}]) for j in range(n)]
+    return {'stream': 'lazy:random', 'shape': shape, 'place': rng.choice(['top', 'top', 'member', 'ctx', 'ctx-rf']),
+            'ctx': ctx, 'items': items}
+
+
+def _digits_after_k(s):
+    return _re.findall(r'\{k(\d+)', s)
